@@ -18,7 +18,7 @@ ALPHA = [0, 1, 2, 3, 4, 5, 8, 255]
 
 
 def generate(R, tier):
-    n = 12000 if tier == "quick" else 200000
+    n = 12000 if tier == "quick" else 1000000
     for a in ALPHA:
         for b in ALPHA:
             for c in ALPHA:
